@@ -426,6 +426,35 @@ def match_soft(classes: str, known: list[dict[str, Any]]) -> list[dict[str, Any]
     return out
 
 
+def match_member(v: dict[str, Any], known: list[dict[str, Any]]) -> dict[str, Any] | None:
+    """Known finding listed by family member: match = {"family": f, "members": [k, ...]} (specific inputs)."""
+    for e in known:
+        m = e.get("match", {})
+        if "members" in m and m.get("family") == v.get("family") and v.get("k") in m["members"]:
+            if "kind" in m and m["kind"] != v["violation"].get("kind"):
+                continue
+            return e
+    return None
+
+
+def _finalise_wrap(fn: Callable[[Any], Any], v: dict[str, Any]) -> dict[str, Any]:
+    out = dict(fn(v))
+    out["members"] = v.get("members")
+    out["cls"] = v.get("cls")
+    return out
+
+
+def finalise_classes(fn: Callable[[Any], Any], by_class: dict[str, list[dict[str, Any]]]) -> list[dict[str, Any]]:
+    """Minimise one representative per violation class (in the pool) and attach the list of all members."""
+    import functools
+
+    reps = []
+    for cls, vs in sorted(by_class.items()):
+        reps.append(dict(vs[0], cls=cls, members=[[x.get("family"), x.get("k")] for x in vs][:200]))
+    finals, _ = run_pool(functools.partial(_finalise_wrap, fn), reps)
+    return sorted(finals, key=lambda f: str(f.get("cls")))
+
+
 def write_replay(prop: str, replay: dict[str, Any]) -> str:
     d = os.path.join(REPLAY_DIR, prop)
     os.makedirs(d, exist_ok=True)
